@@ -324,3 +324,44 @@ Section NodeConfProofs.
       apply spec_pair_model.
   Qed.
 End NodeConfProofs.
+
+(* ---------------------------------------------------------------- configuration histories *)
+(* configuration ids identify configurations (the premise under which "the same configuration" is meaningful) *)
+Definition ids_identify (l : list conf) : Prop :=
+  forall a b, In a l -> In b l -> c_id a = c_id b -> a = b.
+
+Lemma last_cons_default : forall (A : Type) (r : list A) (u d : A), last (u :: r) d = last r u.
+Proof.
+  intros A r. induction r as [|a r' IH]; intros u d; [reflexivity|].
+  change (last (u :: a :: r') d) with (last (a :: r') d). rewrite (IH a d). rewrite (IH a u). reflexivity.
+Qed.
+
+Lemma set_last_ident : forall cur c, (c_id cur = c_id c -> cur = c) -> set_last cur c = c.
+Proof.
+  intros cur c Hid. unfold set_last. destruct (c_id cur =? c_id c)%N eqn:He; [|reflexivity].
+  apply N.eqb_eq in He. exact (Hid He).
+Qed.
+
+(* the state after ANY history is the LAST configuration delivered: nothing of the earlier ones survives *)
+Theorem run_history_last : forall ups init, ids_identify (init :: ups) -> run_history init ups = last ups init.
+Proof.
+  induction ups as [|u r IH]; intros init Hids; [reflexivity|].
+  unfold run_history. cbn [fold_left]. fold (run_history (set_last init u) r).
+  rewrite set_last_ident.
+  - rewrite last_cons_default. apply IH. intros a b Ha Hb. apply Hids; right; assumption.
+  - intro He. apply Hids; [left; reflexivity|right; left; reflexivity|exact He].
+Qed.
+
+(* two participants with different histories that end in the same configuration give the same answers *)
+Theorem history_independent : forall PH VH KH i1 u1 i2 u2,
+  ids_identify (i1 :: u1) -> ids_identify (i2 :: u2) -> last u1 i1 = last u2 i2 ->
+  table PH VH (c_nodes (run_history i1 u1)) = table PH VH (c_nodes (run_history i2 u2)) /\
+  forall p s,
+    members PH VH KH (c_nodes (run_history i1 u1)) s = members PH VH KH (c_nodes (run_history i2 u2)) s /\
+    node_ids PH VH KH (c_nodes (run_history i1 u1)) p s = node_ids PH VH KH (c_nodes (run_history i2 u2)) p s /\
+    is_responsible PH VH KH (c_nodes (run_history i1 u1)) p s
+      = is_responsible PH VH KH (c_nodes (run_history i2 u2)) p s.
+Proof.
+  intros PH VH KH i1 u1 i2 u2 H1 H2 Hl.
+  rewrite (run_history_last u1 i1 H1), (run_history_last u2 i2 H2), Hl. repeat split.
+Qed.
